@@ -507,7 +507,7 @@ func run(r *eng.Runner) {
 		r.DoIsolated(&Case{Files: map[string]string{"/main": `{% import "lib" m, m as n %}{{ m() }}`, "/lib": lib}, Layer: "self-reference"}, 60*time.Second)
 	}
 	// resource caps
-	for _, s := range []string{"{% lorem 100000000 w %}", "{% lorem 99999999999999999999 p %}", `{{ "x"|center:99999999999 }}`, `{{ "x"|ljust:99999999999 }}`, `{{ "x"|rjust:99999999999 }}`, `{{ 1.5|floatformat:99999999999 }}`, `{{ "x"|rjust:iMin }}`, `{{ "x"|ljust:iMax }}`, `{{ "x"|center:iMin }}`,
+	for _, s := range []string{"{% lorem 100000000 w %}", "{% lorem 99999999999999999999 p %}", `{{ "x"|center:99999999999 }}`, `{{ "x"|ljust:99999999999 }}`, `{{ "x"|rjust:99999999999 }}`, `{{ 1.5|floatformat:99999999999 }}`, `{{ "x"|rjust:iMin }}`, `{{ 1.5|floatformat:iNegHuge }}`, `{{ f15|floatformat:sNegHuge }}`, `{{ 1.5|floatformat:iMin }}`, `{{ "x"|center:iNegHuge }}`, `{{ sLong|truncatechars:iNegHuge }}`, `{{ "x"|ljust:iMax }}`, `{{ "x"|center:iMin }}`,
 		`{{ sLong|wordwrap:iMax }}`, `{{ sLong|truncatechars:iMin }}`, `{{ slI|slice:"-99999999999999999999:99999999999999999999" }}`, `{{ 1|get_digit:iMax }}`, `{% widthratio iMax 1 iMax %}`, `{{ 10 ^ 10 ^ 10 }}`, `{{ iMin / iNeg }}`, `{{ iMin % iNeg }}`, `{{ "x"|stringformat:"%9999999d" }}`} {
 		r.DoIsolated(&Case{Src: eng.Q(s), Layer: "resource-caps"}, 60*time.Second)
 	}
